@@ -1,6 +1,8 @@
 """Sidecar type language of pyvc and the class table.
 
     int bool str none any            scalars ('any' = opaque value, modelled as an identity)
+    key                               a string used only as a LITERAL dictionary key ('action', 'state_id', ...): interned
+                                      as a distinct integer, which keeps string theory out of record-like dicts
     opt[T]                            T or None
     list[T] set[T] dict[K,V]          heap-allocated mutable containers (references)
     tuple[T1,T2,...]                  immutable, fixed arity (a Python tuple of symbolic values)
@@ -50,7 +52,7 @@ def parse(s):
         return s
     s = s.strip()
     if "[" not in s:
-        if s in ("int", "bool", "str", "none", "any", "func"):
+        if s in ("int", "bool", "str", "none", "any", "func", "key"):
             return Ty(s)
         raise ValueError(f"unknown type {s!r}")
     head, rest = s.split("[", 1)
@@ -94,7 +96,7 @@ def sort_name(ty):
     k = ty.kind
     if k == "opt":
         return sort_name(ty.args[0])
-    if k in ("int", "bool", "str"):
+    if k in ("int", "bool", "str", "key"):
         return k
     return "ref"
 
